@@ -172,6 +172,7 @@ def run_stream(ctx, n, only=None):
             v = nps.uniform(-1, 1, (3, 3)) * sc
             pol = nps.uniform(-1, 1, 3)
             k = rng.random()
+            tri_stratum = "generic" if k < 0.4 else "above-below" if k < 0.7 else "near-extension" if k < 0.8 else "near-edge-line" if k < 0.9 else "on-edge-line" if k < 0.96 else "zero-area"
             if k < 0.4:  # generic observer at any distance
                 x = v.mean(axis=0) + nps.uniform(-1, 1, 3) * sc * 10 ** nps.uniform(-1.5, 1.5)
             elif k < 0.7:  # above / below the sheet, footpoint inside or outside the triangle
@@ -179,10 +180,31 @@ def run_stream(ctx, n, only=None):
                 w /= w.sum() if abs(w.sum()) > 0.2 else 1.0
                 nn = np.cross(v[1] - v[0], v[2] - v[0])
                 x = w @ v + nn / np.linalg.norm(nn) * sc * 10 ** nps.uniform(-2, 0.5) * rng.choice([-1, 1])
-            else:  # near the extension of an edge (the branch switch of the edge integral), off the edge itself
+            elif k < 0.8:  # near the extension of an edge, off the edge itself
                 e = rng.randrange(3)
                 t = rng.choice([nps.uniform(1.2, 3), nps.uniform(-2, -0.2)])
                 x = v[e] + t * (v[(e + 1) % 3] - v[e]) + nps.uniform(-1, 1, 3) * sc * 10 ** nps.uniform(-3.5, -1.5)
+            elif k < 0.9:  # the three sub-branches of the repaired edge integral close to the edge line: beyond the end, behind the
+                # start, alongside the edge; at distances 1e-12..1e-4 edge lengths from the line (the former `ind <= 1e-12 l` cone
+                # included) and 1e-9..1 edge lengths from the nearer vertex
+                e = rng.randrange(3)
+                d = 10 ** nps.uniform(-9, 0)
+                t = rng.choice([1 + d, -d, d, 1 - d, nps.uniform(0.05, 0.95)])
+                x = v[e] + t * (v[(e + 1) % 3] - v[e]) + nps.uniform(-1, 1, 3) * sc * 10 ** nps.uniform(-12, -4)
+            elif k < 0.96:  # axis-aligned triangle, observer exactly on an edge line: on the edge (on-edge branch: rho2 == 0 alongside),
+                # on either extension (general formula at rho2 == 0) or at a vertex (non-finite in both)
+                a, b = (float(q) for q in nps.integers(1, 6, 2))
+                v = np.array([[0, 0, 0], [a, 0, 0], [0, b, 0]]) * sc
+                t = float(rng.choice([0.25, 0.5, 0.75, 1.5, 3.0, -0.5, -2.0, 0.0, 1.0]))
+                x = v[0] + t * (v[rng.choice([1, 2])] - v[0])
+            else:  # triangle without area (zero-area mask): collinear or coinciding vertices
+                v[2] = v[0] + float(rng.choice([2.0, 0.5, -1.0, 0.0, 1.0])) * (v[1] - v[0])
+                if rng.random() < 0.3:
+                    v[1] = v[0]
+                    v[2] = v[0] if rng.random() < 0.5 else v[2]
+                x = v.mean(axis=0) + nps.uniform(-1, 1, 3) * sc
+                if np.linalg.norm(np.cross(v[1] - v[0], v[2] - v[0])) != 0:  # rounding made it a sliver: use exactly representable multiples
+                    v = np.array([[0, 0, 0], [1, 2, -1], [2, 4, -2]]) * sc
             r = BHJM_triangle(f, x[None], v[None].copy(), pol[None])[0]
             lines.append(f"kern triangle {f} {enc(v)} {enc(pol)} {enc(x)}")
             scale = np.linalg.norm(pol) * (1 if f in "BJ" else 1 / mu_0) + 1e-300
@@ -325,15 +347,17 @@ def run_stream(ctx, n, only=None):
             meta.append({"kind": kind, "dim": dim.tolist(), "pol": pol.tolist(), "x": x.tolist()})
             continue
         expect.append(("vec", r, scale))
-        meta.append({"kind": kind, "field": f, "line": lines[-1][:80]})
+        meta.append({"kind": kind, "field": f, "line": lines[-1][:80], **({"stratum": tri_stratum} if kind == "triangle" else {})})
     out = run_driver(lines)
     stats = {"rows": len(lines), "per_kind": {}, "disagreements": 0, "nonzero_rows": 0, "branch": {}, "cylinder_strata": {},
              "cylinder_max_reldiff": 0.0, "cylseg_case_ids": {}, "cylseg_max_reldiff_by_case_id": {}, "cylseg_max_reldiff_by_kind": {},
-             "cylseg_strata": {}, "cylseg_real_code_raised": []}
+             "cylseg_strata": {}, "cylseg_real_code_raised": [], "triangle_strata": {}, "triangle_max_reldiff_by_stratum": {}}
     samples = []
     for ln, o, (typ, exp, scale), m in zip(lines, out, expect, meta):
         stats["per_kind"][m["kind"]] = stats["per_kind"].get(m["kind"], 0) + 1
-        if "stratum" in m and not m["kind"].startswith("cylseg"):
+        if m["kind"] == "triangle":
+            stats["triangle_strata"][m["stratum"]] = stats["triangle_strata"].get(m["stratum"], 0) + 1
+        elif "stratum" in m and not m["kind"].startswith("cylseg"):
             for key in (m["stratum"], "pol:" + m["pol"] if "pol" in m else "mask-row"):
                 stats["cylinder_strata"][key] = stats["cylinder_strata"].get(key, 0) + 1
         if m["kind"].startswith("cylseg"):
@@ -411,13 +435,19 @@ def run_stream(ctx, n, only=None):
                 ok = False
             else:
                 both_nan = np.isnan(got) & np.isnan(exp)
-                tol = 1e-6 if m["kind"] in ("triangle", "tetra") else 1e-12 if m["kind"] in ("cel0", "celiter") else 1e-9 if m["kind"] == "cylinder" else 1e-10  # triangle sheets: cancellation near edge extensions amplifies the different operation order; cylinder: scipy ellipk/ellipe vs their cel0 forms
+                tol = (1e-3 if m.get("stratum") == "near-edge-line" else 1e-12) if m["kind"] in ("triangle", "tetra") else 1e-12 if m["kind"] in ("cel0", "celiter") else 1e-9 if m["kind"] == "cylinder" else 1e-10  # triangle sheets (repaired edge integral): same operations in the same order, agreement to a few ulp; only within 1e-12..1e-4 edge lengths of an edge line the cancellation in solid_angle (N, D of the arctan2) amplifies the different summation order of einsum; cylinder: scipy ellipk/ellipe vs their cel0 forms
                 if m["kind"] == "cylinder" and np.shape(got) == np.shape(exp) and not np.any(both_nan):
                     with np.errstate(all="ignore"):
                         rd = np.abs(got - exp) / np.maximum(np.maximum(np.abs(got), np.abs(exp)), scale)
                     if np.all(np.isfinite(rd)):
                         stats["cylinder_max_reldiff"] = max(stats["cylinder_max_reldiff"], float(np.max(rd)))
-                ok = bool(np.all(both_nan | (np.abs(got - exp) <= tol * np.maximum(np.maximum(np.abs(got), np.abs(exp)), scale))))
+                if m["kind"] in ("triangle", "tetra") and np.shape(got) == np.shape(exp):
+                    m.setdefault("stratum", m["kind"])
+                    with np.errstate(all="ignore"):
+                        rd = np.where(both_nan | (got == exp), 0.0, np.abs(got - exp) / np.maximum(np.maximum(np.abs(got), np.abs(exp)), scale))
+                    rdm = float(np.max(rd)) if np.all(np.isfinite(rd)) else float("inf")
+                    stats["triangle_max_reldiff_by_stratum"][m["stratum"]] = max(stats["triangle_max_reldiff_by_stratum"].get(m["stratum"], 0.0), rdm)
+                ok = bool(np.all(both_nan | (got == exp) | (np.abs(got - exp) <= tol * np.maximum(np.maximum(np.abs(got), np.abs(exp)), scale))))
                 if np.any(exp != 0):
                     stats["nonzero_rows"] += 1
         if not ok:
